@@ -14,7 +14,7 @@ r1=$(run)
 git checkout -q -- . && git clean -fdq -e target -e Cargo.lock
 git apply $d/patch.diff || { echo "$name: patch does not apply"; exit 2; }
 r2=$(run)
-git apply $d/demo.diff
+git apply $d/demo.diff 2>/dev/null || git apply -C1 $d/demo.diff || echo "demo does not apply on top of the change"
 r3=$(run)
 cd /; git -C /repo worktree remove --force $wt; rm -rf $wt
 echo "$name | unchanged+demo: $r1 | change only: $r2 | change+demo: $r3" | tee $d/confirm.txt
